@@ -473,15 +473,13 @@ Proof.
   destruct (head_column (head_const_key c)) as [c'|]; [|discriminate]. apply String.eqb_eq in H; subst; reflexivity.
 Qed.
 
-Lemma head_reach_ok : forallb (fun code => negb (str_mem code head_table_rows) ||
-                                           String.eqb (head_write_label code) (head_read_label code)) iso3_codes = true.
-Proof. vm_compute. reflexivity. Qed.
-
-Lemma head_reach_rows : forall code, In code iso3_codes -> In code head_table_rows ->
-  head_write_label code = head_read_label code.
+(* the override is applied after the country code has been remapped (SWT -> SWZ), so it is written to the very
+   row create_animal_objects reads - for EVERY country code.  If the two statements are ever swapped back the
+   translator emits head_override_before_remap = true and this proof no longer compiles. *)
+Lemma head_reach_all : forall code, head_write_label code = head_read_label code.
 Proof.
-  intros code Hc Hr. pose proof head_reach_ok as H. rewrite forallb_forall in H. specialize (H code Hc).
-  apply str_mem_In in Hr. rewrite Hr in H. simpl in H. apply String.eqb_eq; exact H.
+  intro code. unfold head_write_label, head_read_label.
+  change head_override_before_remap with false. reflexivity.
 Qed.
 
 (* ------------------------------------------------------------------ witness configurations (non-vacuity, accepted values) *)
